@@ -100,16 +100,25 @@ Fixpoint c09_chain (ver : Z) (c : mcfg) (last : option Z) (rs : list mround) : b
       | _ => c09_chain ver c last rest
       end
   end.
-Fixpoint c09_chain1 (last : option Z) (rs : list mround1) : bool :=
+(* v1, no previous report: the start is one past a max-finalized block number that at least f+1 observers reported AS VALID
+   (an observer whose fetch failed does not vote), and no other valid value has more votes *)
+Definition mfb_votes (v : Z) (ps : list pao1) : nat := length (filter (fun p => snd (q_mfb p) && (fst (q_mfb p) =? v)) ps).
+Definition bootstrap1_ok (c : mcfg) (r : mround1) (rf : fields1) : bool :=
+  let ps := omap' parse1 (omap' fst (r1d_obs r)) in
+  let v := r1_valid_from rf - 1 in
+  ((mc_f c + 1 <=? mfb_votes v ps)%nat &&
+   forallb (fun p => negb (snd (q_mfb p)) || (mfb_votes (fst (q_mfb p)) ps <=? mfb_votes v ps)%nat) ps)
+  || ((r1_valid_from rf =? 0) && (mc_f c + 1 <=? mfb_votes (-1) ps)%nat).
+Fixpoint c09_chain1 (c : mcfg) (last : option Z) (rs : list mround1) : bool :=
   match rs with
   | [] => true
   | r :: rest =>
       match r1d_out r with
       | Ok (true, Some rf) =>
-          match r1d_prev r with Some (Ok pb) => (r1_valid_from rf =? pb + 1) | Some _ => false | None => true end &&
+          match r1d_prev r with Some (Ok pb) => (r1_valid_from rf =? pb + 1) | Some _ => false | None => bootstrap1_ok c r rf end &&
           match last, r1d_prev r with Some e, Some (Ok pb) => if pb =? e then (r1_valid_from rf =? e + 1) else true | _, _ => true end &&
-          (r1_valid_from rf <=? bnum (r1_cur rf)) && c09_chain1 (Some (bnum (r1_cur rf))) rest
-      | _ => c09_chain1 last rest
+          (r1_valid_from rf <=? bnum (r1_cur rf)) && c09_chain1 c (Some (bnum (r1_cur rf))) rest
+      | _ => c09_chain1 c last rest
       end
   end.
 
@@ -121,7 +130,7 @@ Definition merc_agrees (c : merc_case) : bool :=
 Definition merc_c07 (c : merc_case) : bool :=
   match c with M234 ver cf rs => forallb (c07_round_ok ver cf) rs | M1 cf rs => forallb (c07_round1_ok cf) rs end.
 Definition merc_c09 (c : merc_case) : bool :=
-  match c with M234 ver cf rs => c09_chain ver cf None rs | M1 _ rs => c09_chain1 None rs end.
+  match c with M234 ver cf rs => c09_chain ver cf None rs | M1 cf rs => c09_chain1 cf None rs end.
 Definition merc_c01 (c : merc_case) : bool :=
   match c with M234 _ _ rs => forallb rd_stable rs | M1 _ rs => forallb r1d_stable rs end.
 Definition merc_counts (c : merc_case) : list nat :=
